@@ -196,6 +196,23 @@ Theorem dfan_enumeration_cursors : forall s kind isfirst, kind_ok kind -> (isfir
 Proof. intros s kind isfirst Hk Hn. split; [exact (getfannlen_eq s kind isfirst Hk Hn) | exact (getfann_eq s kind isfirst Hk Hn)]. Qed.
 Print Assumptions dfan_enumeration_cursors.
 
+(** round 4: DFANlablist pages through the refs of a tag -- the collecting loop of DFANIlablist (bound and store
+    condition regenerated from dfan.c) delivers exactly the refs startpos .. startpos+listsize-1, for every list of
+    refs, every listsize and every startpos >= 1 *)
+Theorem dfan_lablist_pages : forall refs listsize startpos, 1 <= startpos ->
+  lablist_collect refs 0 0 (zlen refs) listsize startpos = firstn (Z.to_nat listsize) (skipn (Z.to_nat (startpos - 1)) refs).
+Proof. exact lablist_page_refs. Qed.
+Print Assumptions dfan_lablist_pages.
+
+(** round 4: ANend treats all four annotation types (the lists of types whose tree is freed and whose tree pointer /
+    counter are re-initialised are regenerated from mfan.c) *)
+Theorem an_end_resets_every_type :
+  Permutation.Permutation ANend_freed_types [0; 1; 2; 3] /\ Permutation.Permutation ANend_tbbtdfree_types [0; 1; 2; 3] /\
+  ANend_tree_reset_types = [AN_DATA_LABEL; AN_DATA_DESC; AN_FILE_LABEL; AN_FILE_DESC] /\
+  ANend_num_reset_types = [AN_DATA_LABEL; AN_DATA_DESC; AN_FILE_LABEL; AN_FILE_DESC].
+Proof. exact ANend_all_types. Qed.
+Print Assumptions an_end_resets_every_type.
+
 (** corollary kept from the earlier round: the AN interface alone needs no directory invariant *)
 Theorem an_refines_map_an_interface :
   (forall h a o h' mr a' sr, Sim h a -> an_op o -> mstep h o = (h', mr) -> step a (fill o mr) = (a', sr) ->
@@ -347,3 +364,12 @@ Example demo_interleaved_enumeration :
   r1 = MOk [1; 1] [] /\ r3 = MOk [1; 1] [] /\ r5 = MOk [2; 2] [] /\ r6 = MOk [2; 2] [] /\
   r7 = MOk [1; 2] [[66; 0]] /\ r8 = MFail.
 Proof. vm_compute. repeat split. Qed.
+
+(** non-vacuity (round 4): the second page of two refs out of four, and a session restarted on the open file *)
+Example demo_lablist_page : lablist_collect [1; 2; 3; 5] 0 0 4 2 3 = [3; 5] /\ lablist_collect [1; 2; 3; 5] 0 0 4 1 4 = [5] /\
+                            lablist_collect [1; 2] 0 0 2 1 2 = [2].
+Proof. vm_compute. repeat split. Qed.
+Example demo_restart_drops_unwritten :
+  let g := grun (ginit (fun _ => [104])) [GOp OStart; GOp (OCreate 0 1 700 1 0)] in
+  snd (gstep (fst (g_restart g)) (OSelectAll 1)) = MOk [0] [] /\ snd (gstep g (OSelectAll 1)) = MOk [1; 1] [].
+Proof. vm_compute. split; reflexivity. Qed.
